@@ -655,6 +655,50 @@ def two_frames_check(n1, n2, c1, c2):
     return 0
 
 
+REJECT = (ValueError, RuntimeError, TypeError, KeyError)
+
+
+def dup_names_check(mode, n, chunk):
+    """A frame whose channel list repeats a name (two copies of X, or the same channel twice): the data columns are
+    keyed by channel name, so such a frame cannot be laid out - it is refused (add_frame or the data set-up raises),
+    or else every record has one slot per listed channel.  mode 2 is the control (distinct names: accepted)."""
+    nps.reset()
+    df, (lf,) = new_file(1)
+    add_origin(lf, 'O')
+    i = lf.add_channel('I', data=col('colI', n, 7, '<', None))
+    x0 = lf.add_channel('X', data=col('colX0', n, 2, '<', None))
+    x1 = lf.add_channel('X' if mode != 2 else 'Y', data=col('colX1', n, 2, '<', None))
+    chans = (i, x0, x0) if mode == 1 else (i, x0, x1)
+    try:
+        fr = lf.add_frame('F', channels=chans)
+        mfd = lf._make_multi_frame_data(fr, chunk_size=chunk)
+        recs = list(mfd)
+    except REJECT:
+        return 1 if mode == 2 else 0
+    if len(recs) != n:
+        return 2
+    for r in recs:
+        if len(r._slots.arr.fields) != len(chans):
+            return 3                       # fewer slots than the frame lists channels: the file cannot be sliced
+    return 0
+
+
+def ob_dup_names(mode: int, n: int, chunk: int) -> int:
+    """
+    pre: 0 <= mode <= 2 and 1 <= n <= 3 and 1 <= chunk <= 3
+    post: _ == 0
+    """
+    return dup_names_check(mode, n, chunk)
+
+
+def reach_dup_names(mode: int, n: int, chunk: int) -> int:
+    """
+    pre: 0 <= mode <= 2 and 1 <= n <= 3 and 1 <= chunk <= 3
+    post: _ != 0
+    """
+    return dup_names_check(mode, n, chunk)
+
+
 def ob_two_frames(n1: int, n2: int, c1: int, c2: int) -> int:
     """
     pre: 1 <= n1 <= 4 and 1 <= n2 <= 4 and 1 <= c1 <= 5 and 1 <= c2 <= 5
